@@ -76,6 +76,10 @@ def data_index_state(ctx, rule='C10-R1'):
             if rowdrop:
                 need('call', 'label-based row drop .drop(<labels>)', st, guard, None, None)
             if name == 'reset_index':
+                drop = kws.get('drop', t[3][1] if len(t[3]) > 1 else C(False))
+                if drop != C(True):
+                    need('call', "reset_index() without drop=True (the caller's labels become a column of the chunk data)",
+                         'USER', guard, None, None)
                 return 'RANGE'
             if name in ('set_index', 'reindex', 'set_axis'):
                 return 'USER'
